@@ -8,6 +8,7 @@ import (
 	"fmt"
 	"io"
 	"reflect"
+	"strings"
 
 	structform "github.com/elastic/go-structform"
 	"github.com/elastic/go-structform/gotype"
@@ -29,6 +30,7 @@ type Scenario struct {
 	Types       []string `json:"go_types,omitempty"`
 	UserFolders int      `json:"user_folders,omitempty"` // model.FolderOpts variant on the iterator
 	Arena       bool     `json:"strings_are_views_into_one_reused_buffer,omitempty"`
+	ManyTypes   int      `json:"distinct_generated_types_processed_first,omitempty"`
 	Options     []int    `json:"json_options_per_history_document,omitempty"`
 }
 
@@ -461,6 +463,15 @@ func iterator(c *simkit.Choices, x *simkit.Ctx) *simkit.Violation {
 	if c.N(4) == 0 {
 		sc.UserFolders = 1 + c.N(model.NumFolderVariants-1)
 	}
+	manyTypes := 0
+	if c.N(300) == 0 {
+		manyTypes = []int{300, 513, 600, 1100, 2100}[c.N(5)]
+		sc.ManyTypes = manyTypes
+		if c.Bool() {
+			sc.UserFolders = 1 + c.N(model.NumFolderVariants-1)
+		}
+		st.Fault("hundreds-of-distinct-types-first")
+	}
 	fopts := model.FolderOpts(sc.UserFolders)
 	var vals []interface{}
 	related := model.PickRelated(c, nh+1, false) // fold-only types included
@@ -480,7 +491,7 @@ func iterator(c *simkit.Choices, x *simkit.Ctx) *simkit.Violation {
 	}
 	simkit.SetCurrent(sc)
 	st.Eval(1)
-	st.Distinct(simkit.NewDigest().Str("iter").Str(fmt.Sprint(sc.History, sc.Types, sc.UserFolders)).Str(sc.Probe).Sum())
+	st.Distinct(simkit.NewDigest().Str("iter").Str(fmt.Sprint(sc.History, sc.Types, sc.UserFolders, sc.ManyTypes)).Str(sc.Probe).Sum())
 	t := simkit.NewTap(nil)
 	t.Clock = &x.Clock
 	var perr error
@@ -491,6 +502,22 @@ func iterator(c *simkit.Choices, x *simkit.Ctx) *simkit.Violation {
 		if err != nil {
 			skip = true
 			return
+		}
+		if manyTypes > 0 {
+			// hundreds to thousands of DISTINCT Go types go through this one
+			// iterator first (whatever it keeps per type is bounded or not)
+			t.NoRecord = true
+			for k := 0; k < manyTypes; k++ {
+				if k&255 == 0 {
+					x.Alive()
+				}
+				if err := it.Fold(dynStruct(k).Elem().Interface()); err != nil {
+					skip = true
+					return
+				}
+			}
+			t.NoRecord = false
+			t.Reset()
 		}
 		for i, v := range vals {
 			cur = i
@@ -566,9 +593,11 @@ func unfolder(c *simkit.Choices, x *simkit.Ctx) *simkit.Violation {
 	nh := 1 + c.N(6)
 	sc := &Scenario{Kind: "unfolder"}
 	type docT struct {
-		te  *model.TypeEntry
-		evs []simkit.Ev
-		ref bool
+		te    *model.TypeEntry
+		evs   []simkit.Ev
+		ref   bool
+		src   interface{}
+		inner bool // the target is the FIRST FIELD of the previous document's target (same address, another type)
 	}
 	var docs []docT
 	uv := 0
@@ -600,13 +629,34 @@ func unfolder(c *simkit.Choices, x *simkit.Ctx) *simkit.Violation {
 			st.Probe("unfolder-value-not-foldable")
 			return nil
 		}
-		docs = append(docs, docT{te, evs, c.Bool()})
+		docs = append(docs, docT{te: te, evs: evs, ref: c.Bool(), src: v})
 		sc.Types = append(sc.Types, te.Name)
 		if i < nh {
 			sc.History = append(sc.History, simkit.EventsString(evs, 30))
 		} else {
 			sc.Probe = simkit.EventsString(evs, 30)
 		}
+	}
+	// an eighth of the probes go into a target that lives INSIDE the previous
+	// target: &rec, then &rec.FirstField - the same address, another type, no
+	// Reset in between
+	innerProbe := false
+	if c.N(8) == 0 && nh >= 1 && docs[nh-1].te.Supported {
+		if pv := reflect.ValueOf(docs[nh-1].src); pv.Kind() == reflect.Struct && pv.NumField() > 0 && pv.Type().Field(0).PkgPath == "" {
+			if evs := recordFold(pv.Field(0).Interface()); evs != nil {
+				innerProbe = true
+				docs[nh] = docT{te: docs[nh-1].te, evs: evs, ref: c.Bool(), inner: true}
+				sc.Types[nh] = docs[nh-1].te.Name + "." + pv.Type().Field(0).Name
+				sc.Probe = simkit.EventsString(evs, 30)
+				st.Fault("target-inside-previous-target")
+			}
+		}
+	}
+	manyTargets := 0
+	if c.N(300) == 0 {
+		manyTargets = []int{300, 513, 600, 1100, 2100}[c.N(5)]
+		sc.ManyTypes = manyTargets
+		st.Fault("hundreds-of-distinct-types-first")
 	}
 	keyCache := -1
 	if c.N(3) == 0 {
@@ -631,7 +681,7 @@ func unfolder(c *simkit.Choices, x *simkit.Ctx) *simkit.Violation {
 	}
 	simkit.SetCurrent(sc)
 	st.Eval(1)
-	st.Distinct(simkit.NewDigest().Str("unf").Str(fmt.Sprint(sc.History, sc.Types, sc.Arena)).Str(sc.Probe).Sum())
+	st.Distinct(simkit.NewDigest().Str("unf").Str(fmt.Sprint(sc.History, sc.Types, sc.Arena, sc.ManyTypes)).Str(sc.Probe).Sum())
 	var reused, fresh interface{}
 	var rerr, ferr error
 	var v *simkit.Violation
@@ -648,8 +698,32 @@ func unfolder(c *simkit.Choices, x *simkit.Ctx) *simkit.Violation {
 		}
 		idle, hooked := simkit.Depths(u)
 		idle = append([]int{}, idle...)
+		for k := 0; k < manyTargets; k++ {
+			if k&255 == 0 {
+				x.Alive()
+			}
+			tp := dynStruct(k)
+			if u.SetTarget(tp.Interface()) != nil {
+				skip = true
+				return
+			}
+			name := strings.ToLower(tp.Elem().Type().Field(0).Name)
+			for _, e := range []simkit.Ev{{K: simkit.KObjStart, I: 1}, {K: simkit.KKey, S: name}, {K: simkit.KInt64, I: int64(k % 100)}, {K: simkit.KObjEnd}} {
+				if simkit.Emit(u, e, false) != nil {
+					skip = true
+					return
+				}
+			}
+		}
+		var prevPtr interface{}
 		for i, d := range docs {
 			ptr, _, val := d.te.NewTarget()
+			if d.inner {
+				f0 := reflect.ValueOf(prevPtr).Elem().Field(0)
+				ptr = f0.Addr().Interface()
+				val = func() interface{} { return f0.Interface() }
+			}
+			prevPtr = ptr
 			if err := u.SetTarget(ptr); err != nil {
 				if d.te.Supported {
 					skip = true
@@ -687,7 +761,7 @@ func unfolder(c *simkit.Choices, x *simkit.Ctx) *simkit.Violation {
 				skip = true
 				return
 			}
-			if c.N(2) == 0 {
+			if c.N(2) == 0 && !(innerProbe && i == nh-1) {
 				u.Reset()
 				if now, _ := simkit.Depths(u); hooked && !reflect.DeepEqual(now, idle) {
 					v = &simkit.Violation{Kind: "stack-not-idle", Site: "unfolder/" + d.te.Name,
@@ -709,6 +783,11 @@ func unfolder(c *simkit.Choices, x *simkit.Ctx) *simkit.Violation {
 	if pi := simkit.Guard(func() {
 		d := docs[nh]
 		ptr, _, val := d.te.NewTarget()
+		if d.inner {
+			f0 := reflect.New(reflect.TypeOf(docs[nh-1].src).Field(0).Type)
+			ptr = f0.Interface()
+			val = func() interface{} { return f0.Elem().Interface() }
+		}
 		u, err := gotype.NewUnfolder(ptr, model.UnfolderOpts(uv)...)
 		if err != nil {
 			ferr = err
@@ -734,4 +813,19 @@ func trunc(s string, n int) string {
 		return s[:n] + "…"
 	}
 	return s
+}
+
+var dynTypes []reflect.Type
+
+// dynStruct returns a pointer to a zero value of the k-th generated struct type
+// struct{ F<k> int8; S string } (distinct types for distinct k).
+func dynStruct(k int) reflect.Value {
+	for len(dynTypes) <= k {
+		n := len(dynTypes)
+		dynTypes = append(dynTypes, reflect.StructOf([]reflect.StructField{
+			{Name: fmt.Sprintf("F%d", n), Type: reflect.TypeOf(int8(0))},
+			{Name: "S", Type: reflect.TypeOf("")},
+		}))
+	}
+	return reflect.New(dynTypes[k])
 }
